@@ -42,6 +42,24 @@ pub fn syntax(ty: &[String]) -> String {
     }
 }
 
+/// Penne syntax of a type term with the array lengths 3 and 4 SPELLED as named constants: `sp` = "N" ->
+/// `N3` / `N4`, "M" -> `M3` / `M4` (all declared by LEN_CONSTS), anything else -> the number itself.
+pub fn syntax_sp(ty: &[String], sp: &str) -> String {
+    match ty.first().map(|s| s.as_str()) {
+        Some("ptr") => format!("&{}", syntax_sp(&ty[1..], sp)),
+        Some("arr") => {
+            let n = if (sp == "N" || sp == "M") && (ty[1] == "3" || ty[1] == "4") { format!("{}{}", sp, ty[1]) } else { ty[1].clone() };
+            format!("[{}]{}", n, syntax_sp(&ty[2..], sp))
+        }
+        Some("slice") => format!("[]{}", syntax_sp(&ty[1..], sp)),
+        Some("sptr") => format!("&[]{}", syntax_sp(&ty[1..], sp)),
+        Some("endless") => format!("[..]{}", syntax_sp(&ty[1..], sp)),
+        Some("view") => syntax_sp(&ty[1..], sp),
+        _ => syntax(ty),
+    }
+}
+pub const LEN_CONSTS: [&str; 4] = ["const N3: usize = 3;", "const N4: usize = 4;", "const M3: usize = 3usize;", "const M4: usize = 4usize;"];
+
 /// Can a `var` be declared with this type (value_type.rs can_be_variable, in the documented subset)?
 pub fn declarable(ty: &[String]) -> bool {
     match ty.first().map(|s| s.as_str()) {
@@ -67,8 +85,8 @@ pub fn literal(prim: &str, n: u32) -> String {
 }
 
 /// The members of the structures every generated program declares.
-pub const PRELUDE: &str = "struct S { m: i32 }\nword32 W { m: i32 }\nword64 W2 { m: i32, n: i32 }\n";
-pub const PRELUDE_LINES: usize = 3;
+pub const PRELUDE: &str = "struct S { m: i32 }\nword32 W { m: i32 }\nword64 W2 { m: i32, n: i32 }\nword8 W8 { m: u8 }\nword16 W16 { m: u16 }\nword128 W128 { m: u64, n: u64 }\n";
+pub const PRELUDE_LINES: usize = 6;
 
 /// An initialiser expression for a variable of type `ty` (helpers must already be declared by `declare`).
 fn init_expr(ty: &[String], name: &str, n: u32) -> String {
@@ -90,6 +108,9 @@ fn init_expr(ty: &[String], name: &str, n: u32) -> String {
         Some("word") => match ty[1].as_str() {
             "W" => format!("W {{ m: {} }}", literal("i32", n)),
             "W2" => format!("W2 {{ m: {}, n: {} }}", literal("i32", n), literal("i32", n + 1)),
+            "W8" => format!("W8 {{ m: {} }}", literal("u8", n)),
+            "W16" => format!("W16 {{ m: {} }}", literal("u16", n)),
+            "W128" => format!("W128 {{ m: {}, n: {} }}", literal("u64", n), literal("u64", n + 1)),
             other => format!("{other} {{ }}"),
         },
         Some(p) => literal(p, n),
@@ -107,11 +128,38 @@ pub fn ptr_depth(ty: &[String]) -> usize {
 
 /// Lines declaring `var name: ty = ...;` (pointer variables need a pointee `name_0` first).
 pub fn declare(ty: &[String], name: &str, n: u32) -> Vec<String> {
+    declare_sp(ty, name, n, "lit")
+}
+
+/// The pointer type inside an array type (`[2]&i32` -> `&i32`), if any.
+fn pointer_inside(ty: &[String]) -> Option<&[String]> {
+    match ty.first().map(|s| s.as_str()) {
+        Some("arr") => match ty.get(2).map(|s| s.as_str()) {
+            Some("ptr") => Some(&ty[2..]),
+            Some("arr") => pointer_inside(&ty[2..]),
+            _ => None,
+        },
+        _ => None,
+    }
+}
+
+/// The same with the array lengths spelled after `sp` (see syntax_sp).
+pub fn declare_sp(ty: &[String], name: &str, n: u32, sp: &str) -> Vec<String> {
     let mut lines = Vec::new();
     if head(&ty.to_vec()) == "ptr" {
-        lines.extend(declare(&ty[1..], &format!("{name}_0"), n));
+        lines.extend(declare_sp(&ty[1..], &format!("{name}_0"), n, sp));
+    } else if let Some(p) = pointer_inside(ty) {
+        // the elements of an array of pointers all point to `name_0`
+        lines.extend(declare_sp(&p[1..], &format!("{name}_0"), n, sp));
     }
-    lines.push(format!("\tvar {}: {} = {};", name, syntax(ty), init_expr(ty, name, n)));
+    // a long array is declared without initialiser (errors.md E513: `var databuffer: [1024]u8;`)
+    let long = head(&ty.to_vec()) == "arr" && ty[1].parse::<u64>().map(|n| n > 16).unwrap_or(false)
+        || (head(&ty.to_vec()) == "arr" && ty.get(2).map(|s| s.as_str()) == Some("arr") && ty[3].parse::<u64>().map(|n| n > 16).unwrap_or(false));
+    if long {
+        lines.push(format!("\tvar {}: {};", name, syntax_sp(ty, sp)));
+    } else {
+        lines.push(format!("\tvar {}: {} = {};", name, syntax_sp(ty, sp), init_expr(ty, name, n)));
+    }
     lines
 }
 
